@@ -3,8 +3,12 @@
 Deductive part: helpers.typekey, the canonical (reversal-invariant) key on which all type numbering rests, for arities 2, 3, 4 over any
 totally ordered element type: the key is the tuple or its reverse, is the same for a tuple and its reverse, and two tuples have the same
 key iff they are equal up to reversal.  Relational obligations are discharged over the product of the path sets of two symbolic runs of
-the real function.  rough_uff.delete_if_all_in_set is verified with a loop invariant.  Enumeration (calc_angles / calc_dihedrals over
-networkx), first-seen numbering and renaming invariance are BOUNDED on the real code (bounded/C19.py).
+the real function.  rough_uff.delete_if_all_in_set is verified with a loop invariant.  rough_uff.assign_bond_types and assign_angle_types
+are verified for term lists of any length (modular: typekey, bond_params / angle_params, angle2lammpsdat enter by their contracts; the
+first-seen de-duplication idiom `list(dict.fromkeys(xs).keys())` + `.index` by an assumed contract): two terms get the same type number
+exactly when their UFF type sequences agree up to reversal, the coefficient line of a term's type is the one computed from the term's own
+sequence (in one of its two orientations), type numbers are dense.  Enumeration (calc_angles / calc_dihedrals over networkx),
+assign_dihedral_types (torsion counts, dropped torsions) and renaming invariance are BOUNDED on the real code (bounded/C19.py).
 """
 import z3
 
@@ -14,8 +18,9 @@ from pyvc import models_py, models_np
 
 META = {
     'level': 'other',
-    'explanation': "canonical key lemmas proved for all tuples (arity 2-4); exclusion filter proved; enumeration completeness, first-seen "
-                   "numbering and renaming invariance only checked with a stated bound (networkx graph traversal is not modelled)",
+    'explanation': "canonical key lemmas proved for all tuples (arity 2-4); exclusion filter proved; bond and angle typing proved to depend only on "
+                   "the UFF type sequence up to reversal with the parameters of that sequence attached; enumeration completeness, dihedral typing "
+                   "and renaming invariance only checked with a stated bound (networkx graph traversal is not modelled)",
     'trusted_base': ["tuple comparison is lexicographic over a total order on the elements (ints / strs)", "z3 soundness", "pyvc symbolic interpreter"],
 }
 INT = z3.IntSort()
@@ -129,6 +134,143 @@ def build(S):
                 S.add_canary(I, "delete_if_all_in_set[w=%d]/canary#%d" % (w, i), [h for h in pth.pc if not z3.is_quantifier(h)])
             S.add_interp_obligations(I)
     S.guarded('delete_if_all_in_set', run_exclude)
+    prove_assign_types(S)
     S.clause('canonical key: reversal invariant and injective up to reversal', 'PROVED (arities 2-4, any total order)')
     S.clause('exclusion set removes exactly the terms wholly inside it', 'PROVED (loop invariant + assumed np.delete contract)')
-    S.clause('angle / dihedral enumeration complete and duplicate-free; first-seen numbering; coefficients per key; renaming invariance; retyping tables', 'BOUNDED (bounded/C19.py)')
+    S.clause('bond / angle typing: same type iff UFF sequences agree up to reversal; the type carries the parameters of that sequence; dense numbering', 'PROVED (assign_bond_types, assign_angle_types; first-seen idiom assumed)')
+    S.clause('angle / dihedral enumeration complete and duplicate-free; dihedral typing incl. torsion counts and dropped torsions; renaming invariance; retyping tables', 'BOUNDED (bounded/C19.py)')
+
+
+# ------------------------------------------------------------------------------------------------
+# assign_bond_types / assign_angle_types: typing depends only on the UFF type sequences, up to reversal
+from pyvc.values import StrS, Opaque, Ref
+from pyvc import models_uniq
+REAL = z3.RealSort()
+
+
+def key_functions(I, n):
+    """Contract of helpers.typekey for arity n (proved above for any total order): key in {t, reversed t}, key(t) == key(reversed t)."""
+    ks = [I.reg.ufunc('typekey%d_%d' % (n, i), *([StrS] * n + [StrS])) for i in range(n)]
+    a = [z3.Const('tk_a%d' % i, StrS) for i in range(n)]
+    ra = list(reversed(a))
+    key = lambda t: [k(*t) for k in ks]
+    eq = lambda x, y: z3.And(*[p == q for p, q in zip(x, y)])
+    I.base_axioms.append(z3.ForAll(a, z3.And(z3.Or(eq(key(a), a), eq(key(a), ra)), eq(key(a), key(ra))), patterns=[ks[0](*a)]))
+    return key
+
+
+def prove_assign_types(S):
+    RU = 'mofun/rough_uff.py'
+    for fn, kind, n in (('assign_bond_types', 'bond', 2), ('assign_angle_types', 'angle', 3)):
+        S.function(RU, fn)
+        S.guarded(fn, lambda fn=fn, kind=kind, n=n: _assign(S, RU, fn, kind, n))
+
+
+def _assign(S, RU, fn, kind, n):
+    I = S.interp()
+    I.allow_merge = False
+    models_py.install(I)
+    models_np.install(I)
+    models_uniq.install(I)
+    key = key_functions(I, n)
+    I.reg.assumptions_used.add("contract of helpers.typekey (proved above, arities 2-4): the key is the tuple or its reverse and is reversal invariant")
+    I.reg.assumptions_used.add("contracts of bond_params / angle_params (property C18): pure functions of the UFF type sequence and the bond-order rules")
+    eq = lambda x, y: z3.And(*[p == q for p, q in zip(x, y)])
+
+    def m_typekey(ctx, args, kwargs):
+        t = args[0]
+        if not (isinstance(t, (list, tuple)) and len(t) == n and all(isinstance(x, Sym) and x.e.sort() == StrS for x in t)):
+            raise OutOfSubset("typekey is not called with %d UFF type names" % n)
+        return tuple(Sym(k) for k in key([x.e for x in t]))
+    I.models['mofun/helpers.py:typekey'] = m_typekey
+    rules = Opaque(z3.Const('bond_order_rules', models_py.ObjS), 'rules')
+    if kind == 'bond':
+        pk = I.reg.ufunc('bond_params_k', StrS, StrS, models_py.ObjS, REAL)
+        pr = I.reg.ufunc('bond_params_r', StrS, StrS, models_py.ObjS, REAL)
+
+        def m_params(ctx, args, kwargs):
+            if len(args) != 2 or set(kwargs) != {'bond_order_rules'}:
+                raise OutOfSubset("bond_params is not called as bond_params(a1, a2, bond_order_rules=...)")
+            a1, a2 = [to_z3(x) for x in args]
+            r = models_py.to_obj(I, kwargs['bond_order_rules'])
+            return (Sym(pk(a1, a2, r)), Sym(pr(a1, a2, r)))
+        I.models['%s:bond_params' % RU] = m_params
+    else:
+        OBJ = models_py.ObjS
+        ap = I.reg.ufunc('angle_params', StrS, StrS, StrS, OBJ, OBJ)
+        tupstar = I.reg.ufunc('tuple_of_star_and_label', OBJ, StrS, OBJ)
+        a2l = I.reg.ufunc('angle2lammpsdat', OBJ, StrS)
+
+        def m_params(ctx, args, kwargs):
+            if len(args) != 3 or set(kwargs) != {'bond_order_rules'}:
+                raise OutOfSubset("angle_params is not called as angle_params(a1, a2, a3, bond_order_rules=...)")
+            return Opaque(ap(*[to_z3(x) for x in args], models_py.to_obj(I, kwargs['bond_order_rules'])), 'angle_params')
+
+        def m_star(ctx, parts):
+            if len(parts) == 2 and parts[0][0] == 'star' and isinstance(parts[0][1], Opaque) and parts[1][0] == 'item' and isinstance(parts[1][1], Sym):
+                return Opaque(tupstar(parts[0][1].term, parts[1][1].e), 'params+label')
+            raise OutOfSubset("tuple display with a starred library value")
+
+        def m_a2l(ctx, args, kwargs):
+            if len(args) == 1 and isinstance(args[0], Opaque):
+                return Sym(a2l(args[0].term))
+            raise OutOfSubset("angle2lammpsdat of %r" % (args,))
+        I.models['%s:angle_params' % RU] = m_params
+        I.models['tuple.opaque-star'] = m_star
+        I.models['%s:angle2lammpsdat' % RU] = m_a2l
+    clo = I.closure_for(RU, fn)
+    st = {}
+
+    def thunk():
+        NA, NT = z3.Int('n_atoms'), z3.Int('n_terms')
+        I.assume(NA >= 0)
+        I.assume(NT >= 0)
+        uff = SymSeq(NA, [z3.Array('uff_atom_types', INT, StrS)], None, 'list', 'uff_atom_types')
+        terms = SymSeq(NT, [z3.Array('%s_c%d' % (kind, c), INT, INT) for c in range(n)], n, 'ndarray', kind + 's')
+        r = z3.Int('rq')
+        I.assume(z3.ForAll([r], z3.Implies(z3.And(r >= 0, r < NT), z3.And(*[z3.And(z3.Select(c, r) >= 0, z3.Select(c, r) < NA) for c in terms.cols])),
+                           patterns=[z3.Select(terms.cols[0], r)]))          # requires: terms refer to existing atoms
+        atoms = I.state.alloc('Atoms', {'__class__': 'Atoms', kind + 's': terms, kind + '_types': None, kind + '_type_coeffs': None})
+        I.call_closure(clo, [atoms, uff], {'bond_order_rules': rules})
+        return atoms, uff, terms
+
+    paths = I.explore(thunk)
+    tag = fn
+    for pi, p in enumerate(paths):
+        if p.outcome != 'return':
+            raise OutOfSubset("%s raises" % fn)
+        atoms, uff, terms = p.value
+        heap = p.state.heap[atoms.oid]
+        T, C = heap[kind + '_types'], heap[kind + '_type_coeffs']
+        if not (isinstance(T, SymSeq) and isinstance(C, SymSeq)):
+            raise OutOfSubset("%s does not assign symbolic type / coefficient lists" % fn)
+        i, j, u = z3.Int('pi'), z3.Int('pj'), z3.Int('pu')
+        seq = lambda r: [z3.Select(uff.cols[0], z3.Select(c, r)) for c in terms.cols]
+        upto = lambda x, y: z3.Or(eq(x, y), eq(x, list(reversed(y))))
+        Ti, Tj = z3.Select(T.cols[0], i), z3.Select(T.cols[0], j)
+        S.add(I, "%s/frame/term-list-unchanged-without-exclusion#%d" % (tag, pi), p.pc, z3.BoolVal(heap[kind + 's'] is terms), kind='frame')
+        S.add(I, "%s/post/one-type-per-term#%d" % (tag, pi), p.pc, T.length == terms.length, clause='every term gets a type')
+        S.add(I, "%s/post/same-type-iff-uff-sequences-agree-up-to-reversal#%d" % (tag, pi), p.pc,
+              z3.ForAll([i, j], z3.Implies(z3.And(i >= 0, i < terms.length, j >= 0, j < terms.length), (Ti == Tj) == upto(seq(i), seq(j)))),
+              clause='two terms have the same type exactly when their UFF type sequences agree up to reversal')
+        if kind == 'bond':
+            f = I.reg.ufunc('fmt[%10.6f %10.6f # %s %s]', REAL, REAL, StrS, StrS, StrS)
+            robj = rules.term
+            text = lambda t: f(pk(t[0], t[1], robj), pr(t[0], t[1], robj), t[0], t[1])
+            S.add(I, "%s/post/type-carries-the-parameters-of-the-terms-own-sequence#%d" % (tag, pi), p.pc,
+                  z3.ForAll([i], z3.Implies(z3.And(i >= 0, i < terms.length), z3.And(Ti >= 0, Ti < C.length,
+                            z3.Or(z3.Select(C.cols[0], Ti) == text(seq(i)), z3.Select(C.cols[0], Ti) == text(list(reversed(seq(i)))))))),
+                  clause='each type carries the parameters of that UFF sequence (in one of its two orientations)')
+        else:
+            f3 = I.reg.ufunc('fmt[%s %s %s]', StrS, StrS, StrS, StrS)
+            text = lambda t: a2l(tupstar(ap(t[0], t[1], t[2], rules.term), f3(*t)))
+            S.add(I, "%s/post/type-carries-the-parameters-of-the-terms-own-sequence#%d" % (tag, pi), p.pc,
+                  z3.ForAll([i], z3.Implies(z3.And(i >= 0, i < terms.length), z3.And(Ti >= 0, Ti < C.length,
+                            z3.Or(z3.Select(C.cols[0], Ti) == text(seq(i)), z3.Select(C.cols[0], Ti) == text(list(reversed(seq(i)))))))),
+                  clause='each type carries the parameters of that UFF sequence (in one of its two orientations)')
+        S.add(I, "%s/post/every-type-number-is-used#%d" % (tag, pi), p.pc,
+              z3.ForAll([u], z3.Implies(z3.And(u >= 0, u < C.length), z3.Exists([i], z3.And(i >= 0, i < terms.length, Ti == u)))),
+              clause='type numbers are dense: one coefficient line per type in use')
+        S.add_canary(I, "%s/canary#%d" % (tag, pi), [h for h in p.pc if not z3.is_quantifier(h)])
+        S.add_probe(I, "%s/probe/hypotheses-consistent#%d" % (tag, pi), p.pc)
+    S.add_interp_obligations(I)
